@@ -124,7 +124,7 @@ type c04Case struct {
 	desc  string
 }
 
-func c04Cases(tier string, group string) []c04Case {
+func c04Cases(tier string, group string, lower bool) []c04Case {
 	stat := func(p string) cop { return cop{kind: "Stat", path: p} }
 	rl := func(p string) cop { return cop{kind: "ReadLink", path: p} }
 	ra := func(off int) cop { return cop{kind: "ReadAt", off: off} }
@@ -134,13 +134,17 @@ func c04Cases(tier string, group string) []c04Case {
 	if tier == "thorough" {
 		deep = 4
 	}
+	if lower {
+		deep-- // jobs under another default scheduler: one deviation less
+	}
 	if group == "" || group == "calls" {
 		bases := []callsSpec{
 			{callers: [][]cop{{stat("/a")}}, permute: true, after: true},
 			{callers: [][]cop{{stat("/a")}, {rl("/l")}}, permute: true, after: true},
 			{callers: [][]cop{{wa(0, "PQ")}, {ra(4)}}, permute: true, after: true},
-			{callers: [][]cop{{{kind: "ReadDir", path: "/dir3"}}}, permute: true, after: true},   // a listing of three batches
-			{callers: [][]cop{{stat("/a"), stat("/b")}, {rl("/l")}}, permute: true, after: true}, // a caller that starts its next call while the loss is being announced
+			{callers: [][]cop{{{kind: "ReadDir", path: "/dir3"}}}, permute: true, after: true},                                 // a listing of three batches
+			{callers: [][]cop{{stat("/a"), stat("/b")}, {rl("/l")}}, permute: true, after: true},                               // a caller that starts its next call while the loss is being announced
+			{ctxCancel: true, callers: [][]cop{{{kind: "ReadDirCtx", path: "/dir2"}, stat("/b")}}, permute: true, after: true}, // a listing abandoned through its context, then the loss
 		}
 		if tier == "thorough" {
 			bases = append(bases, callsSpec{callers: [][]cop{{stat("/a"), ra(2)}, {rl("/l")}, {wa(0, "XY")}}, permute: true, after: true})
@@ -218,7 +222,7 @@ func c04Cases(tier string, group string) []c04Case {
 func init() {
 	reg.Part("C04/cuts", func(c *reg.Ctx) *reg.Result {
 		total := reg.NewResult(c.Part)
-		cases := c04Cases(c.Tier, c.Arg("group", ""))
+		cases := c04Cases(c.Tier, c.Arg("group", ""), c.Arg("policy", "") != "")
 		sub := *c
 		sub.NShards, sub.Shard = 1, 0
 		completed := 0
@@ -278,7 +282,7 @@ func init() {
 		}
 		total.Notes["crash_point_cases_total"] = len(cases)
 		total.Notes["crash_point_cases_completed_this_shard"] = completed
-		total.Bound = fmt.Sprintf("%d (crash point x in-flight set) cases, each explored to its deviation bound (calls: db(3) quick / db(4) thorough; transfers: db(1) / db(3), their failing writes db(1) / db(2))", len(cases))
+		total.Bound = fmt.Sprintf("%d (crash point x in-flight set) cases, each explored to its deviation bound (calls: db(3) quick / db(4) thorough, one less under the other default schedulers; transfers: db(1) / db(3), their failing writes db(1) / db(2))", len(cases))
 		return total
 	})
 	reg.Prop(&reg.Property{
